@@ -2,6 +2,7 @@ import Proofs.C15.Size
 import Proofs.C15.Text
 import Proofs.C15.Sound
 import Proofs.C15.OpsCount
+import Proofs.C15.SatCond
 /-!
 # C15 — miniscript typing, compilation, read-back and satisfaction are consistent
 
@@ -102,6 +103,17 @@ theorem static_ops_eq_script_ops (ctx : Ctx) (h160 : Bytes → Bytes) (n : Ms) (
     countNP (opsOf ctx h160 verify n) = (info ctx n).staticOps :=
   countNP_opsOf ctx h160 n verify
 
+/-- bounds soundness (static part): whenever `max_ops` is defined it is at least the number of op
+    codes above OP_16 in the script — every one of which BIP141 counts, executed or not — for EVERY
+    expression (the keys of an executed OP_CHECKMULTISIG are the `_ops.sat` summand on top). -/
+theorem max_ops_ge_script_ops (ctx : Ctx) (h160 : Bytes → Bytes) (n : Ms) (verify : Bool) (m : Nat)
+    (h : maxOps ctx n = some m) : countNP (opsOf ctx h160 verify n) ≤ m := by
+  rw [countNP_opsOf ctx h160 n verify]
+  unfold maxOps at h
+  cases hs : (info ctx n).ops.sat with
+  | none => rw [hs] at h; simp [addO] at h
+  | some k => rw [hs] at h; simp [addO] at h; omega
+
 /- T3 (full statement, not proved): for every well-typed `n` (all fragments, both dialects), with
    `Sat`/`Dsat` extended to every row of BIP379's satisfaction table and `exec` to every op code
    miniscript emits, `Sound E ctx h160 n`.  T4 (full, not proved): the stack `satisfy` returns
@@ -147,6 +159,20 @@ theorem satisfaction_accepted_partial (E : EvalEnv) (hsig0 : ∀ k, E.sigOK k []
   constructor
   · intro hs; simpa using bs s [] [] [] rfl hs
   · intro hs; simpa using bd s [] [] [] rfl hs
+
+/-- T4 (refusal half), about the model of the satisfier itself (`Model/C15/Satisfy.lean`:
+    `_computed_input`, `_better`, `satisfy`, tied by the `sat` stream): when the spending condition
+    is false for what is available — no signature offered for a key, no preimage, a lock time the
+    transaction does not meet, combined by the expression's and/or/andor structure — `satisfy`
+    refuses with "no satisfaction", for EVERY expression and both dialects.  (`cond` answers
+    "possibly true" for multi, multi_a and thresh: quorums are not covered yet.) -/
+theorem satisfy_refuses_when_condition_false (ctx : Ctx) (env : SatEnv) (n : Ms)
+    (h : cond ctx env n = false) : satisfy ctx env n = .error .none :=
+  satisfy_none_of_cond_false ctx env n h
+
+/-- non-vacuity: with no signature for K, `and_v(v:c:pk_k(K),older(5))` has a false condition. -/
+example : cond .p2wsh ⟨[], [], 0, 5, 2⟩ (.bin .and_v (.wrap .v (.wrap .c (.pk_k [2]))) (.older 5)) = false := by
+  decide
 
 /-- non-vacuity: `or_i(and_v(v:c:pk_k(K),1), and_b(c:pk_k(K'),a:c:pk_k(K)))` and
     `andor(c:pk_k(K),or_d(c:pk_k(K'),n:1),0)` are in S1 and typed "B"; with a signature for K the
